@@ -22,6 +22,9 @@ type PropSpec struct {
 	PanicsOnly bool `json:"panics_only,omitempty"`
 	// Include: job lists of other properties to run as well (C07, C16 reuse harnesses)
 	Include []string `json:"include,omitempty"`
+	// IncludeQuick: properties whose quick job list is run as well, in either tier (their
+	// thorough lists are long and their panic obligations are evaluated by their own checks)
+	IncludeQuick []string `json:"include_quick,omitempty"`
 	// Selftest: concrete differential jobs engine-vs-native (translator validation)
 	Selftest []JobSpec `json:"selftest,omitempty"`
 	// OnlyIDs restricts the assertion ids that count for this property (regexp); others are
@@ -114,6 +117,11 @@ func runCheck(prop, tier string, noReplay bool) int {
 	for _, inc := range ps.Include {
 		if o := specs[inc]; o != nil {
 			jobSpecs = append(jobSpecs, pick(o)...)
+		}
+	}
+	for _, inc := range ps.IncludeQuick {
+		if o := specs[inc]; o != nil {
+			jobSpecs = append(jobSpecs, o.Quick...)
 		}
 	}
 	// de-duplicate
